@@ -28,6 +28,11 @@ type qLogReader struct {
 
 	// currentFile is the index of the current file.
 	currentFile int
+
+	// seekFound is true if the last call to seekTS has positioned the reader
+	// on the record with exactly the requested timestamp, as opposed to
+	// positioning it on the newest record that is older than the timestamp.
+	seekFound bool
 }
 
 // newQLogReader initializes a qLogReader instance with the specified files.
@@ -64,6 +69,8 @@ func newQLogReader(ctx context.Context, logger *slog.Logger, files []string) (*q
 // timestamp.  If the record is found, it sets qLogReader's position to point
 // to that line, so that the next ReadNext call returned this line.
 func (r *qLogReader) seekTS(ctx context.Context, timestamp int64) (err error) {
+	r.seekFound = false
+
 	for i := len(r.qFiles) - 1; i >= 0; i-- {
 		q := r.qFiles[i]
 		_, _, err = q.seekTS(ctx, r.logger, timestamp)
@@ -75,9 +82,13 @@ func (r *qLogReader) seekTS(ctx context.Context, timestamp int64) (err error) {
 
 				continue
 			} else if errors.Is(err, errTSTooLate) {
-				// Just seek to the start then.  timestamp is probably between
-				// the end of the previous one and the start of this one.
-				return r.SeekStart()
+				// All records of this file are older than timestamp, while
+				// all records of the newer files, if any, are newer than it.
+				// So start reading from the newest record of this file.
+				r.currentFile = i
+				_, err = q.SeekStart()
+
+				return err
 			} else if errors.Is(err, errTSNotFound) {
 				return err
 			} else {
@@ -89,6 +100,7 @@ func (r *qLogReader) seekTS(ctx context.Context, timestamp int64) (err error) {
 		// Update currentFile only, position is already set properly in
 		// qLogFile.
 		r.currentFile = i
+		r.seekFound = true
 
 		return nil
 	}
